@@ -1,6 +1,7 @@
 #!/usr/bin/env bash
 # extra build steps of ./run setup: everything a quick check needs besides the main binary
 set -u
-/verif/tools/pre_C17.sh setup || exit 2
-/verif/tools/pre_C19.sh setup || exit 2
+R="${VERIF_ROOT:-/verif}"
+"$R/tools/pre_C17.sh" setup || exit 2
+"$R/tools/pre_C19.sh" setup || exit 2
 exit 0
